@@ -31,6 +31,12 @@ def main():
             for seed in seeds:
                 out = f"{ROOT}/.build/sigs/{pid}-{tier}-{seed}.json"
                 t0 = time.time()
+                if "--reuse" in sys.argv and os.path.exists(out):
+                    d = json.load(open(out))
+                    for k, v in d.items():
+                        sigs.setdefault(k, v.get("what", ""))
+                    print(f"{pid} {tier} seed={seed}: reused {len(d)} signatures", flush=True)
+                    continue
                 env = dict(os.environ, VERIF_SEED=str(seed), VERIF_DUMP_SIGS=out)
                 p = subprocess.run(["./check", pid, "--tier", tier, "--no-confirm"], cwd=ROOT, env=env, capture_output=True, text=True)
                 d = json.load(open(out))
